@@ -309,6 +309,18 @@ class StmtMixin:
                 self.apply_external(ext, 'setattr.' + target.attr, base, [v], {}, st, fr, None)
                 return
             spec = self.attr_spec(fr, base, target.attr)
+            if spec is None and v is not None and not isinstance(v, (Obj, tuple, list, dict)):
+                # untyped Python attribute: its heap sort follows the value stored
+                if isinstance(v, bool) or is_bool(v):
+                    spec = 'bool'
+                elif isinstance(v, int) or is_int(v):
+                    spec = 'int'
+                elif isinstance(v, str) or is_str(v):
+                    spec = 'str'
+                elif is_z3(v) and is_real(v):
+                    spec = 'real'
+                if spec is not None:
+                    self.inferred_attrs[target.attr] = spec
             ct = self.tree.attr_ctype(base.cls, target.attr) if base.cls else None
             if ct and v is not None:
                 v = self.coerce_ctype(v, ct)
